@@ -602,6 +602,7 @@ func (r *runner) execCancel(c *caseData, fifo bool, inject map[string]sched.Deci
 		}
 	}
 	if d.dir != "" {
+		r.checkAncestors(c, d, werr)
 		os.RemoveAll(filepath.Dir(d.dir))
 	}
 	return werr, state, pol
@@ -641,9 +642,26 @@ func (r *runner) execPre(c *caseData, pre bool, cancelOut *context.CancelFunc) (
 		}
 	}
 	if d.dir != "" {
+		r.checkAncestors(c, d, werr)
 		os.RemoveAll(filepath.Dir(d.dir))
 	}
 	return werr, state
+}
+
+// checkAncestors: whatever a write path did - succeed, fail half way, clean up after itself - the
+// directory that holds the bucket's root (it holds nothing else) is still there: cleaning up after a
+// failed write must stop at the root (C13: nothing outside the root is deleted).
+func (r *runner) checkAncestors(c *caseData, d *dest, werr error) {
+	if _, err := os.Lstat(filepath.Dir(d.dir)); err != nil {
+		outcome := "succeeded"
+		if werr != nil {
+			outcome = "failed"
+		}
+		r.s.Violate("nothing-outside-root-touched", "C13|nothing-outside-root-touched|write-path-removed-parent-of-root|"+c.wp.name,
+			"%s (dst=%s atomic=%v) %s and the directory that held the bucket's root directory is gone", c.wp.name, c.dstKind, c.atomic, outcome)
+	} else {
+		r.s.Probe("root-parent-survived-write-path")
+	}
 }
 
 func diffState(want, got map[string]string) string {
@@ -687,7 +705,25 @@ func faultKindsFor(c *caseData, kind string) []string {
 
 // Run is one simulated case: a reference execution and the enumeration of
 // every (position, fault kind) of the destination's operations.
+// Run executes one case; run on behalf of C13 only the containment oracle counts, otherwise it does not.
 func Run(tp *tape.Tape, env *engine.Env) *engine.Outcome {
+	out := run(tp, env)
+	kept := out.Violations[:0]
+	for _, v := range out.Violations {
+		if strings.HasPrefix(v.Sig, "C13|") == (env.Property == "C13") || strings.HasPrefix(v.Sig, "harness|") {
+			kept = append(kept, v)
+		} else {
+			if out.Counters == nil {
+				out.Counters = map[string]int{}
+			}
+			out.Counters["other-property:"+v.Oracle]++
+		}
+	}
+	out.Violations = kept
+	return out
+}
+
+func run(tp *tape.Tape, env *engine.Env) *engine.Outcome {
 	s := sched.New(tp)
 	s.KeepTrace = env.KeepTrace
 	s.Progress = env.Progress
